@@ -146,9 +146,10 @@ Section StrictIsPython.
 Variable R : record.
 Variable roots : list string.
 Variable wrapped : bool.
-Notation py := (py_eval_gen R roots wrapped).
+Variable keep : bool.
+Notation py := (py_eval_gen R roots wrapped keep).
 
-Lemma link_py_mono op a b r : link_py R true op a b = Val r -> link_py R false op a b = Val r.
+Lemma link_py_mono op a b r : link_py R keep true op a b = Val r -> link_py R keep false op a b = Val r.
 Proof. destruct op; cbn; try (intros H; exact H); destruct (is_typem a); cbn; (discriminate || (intros H; exact H)). Qed.
 
 Theorem strict_is_python : forall e ns v, py true ns e = Val v -> py false ns e = Val v.
@@ -177,7 +178,9 @@ Proof.
     rewrite (p_seq_mono (py true) (py false) args IHargs _ _ EA).
     destruct (p_kws (py true) ns kws) as [kvs|x] eqn:EK; [|discriminate].
     rewrite (p_kws_mono (py true) (py false) kws IHkws _ _ EK). exact H.
-  - destruct (p_gens R (py true) a elt gens ns) as [| |x] eqn:E; try discriminate;
+  - destruct (py_name roots ns (quant_name a)) as [[]|x]; try discriminate H; try exact H.
+    destruct (String.eqb f (quant_name a)); [|discriminate].
+    destruct (p_gens R (py true) a elt gens ns) as [| |x] eqn:E; try discriminate;
       rewrite (p_gens_mono R (py true) (py false) a elt gens IHelt IHgens _ _ E I); exact H.
   - discriminate.
 Qed.
@@ -197,8 +200,9 @@ Section Agreement.
 Variable F : facts.
 Hypothesis Hchained : chained F = true.
 Hypothesis Hifs : ifs_honoured F = true.
+Hypothesis Hkeep : tm_keeps_attrs F = true.
 Variable R : record.
-Notation py := (py_eval_gen R whitelist_roots false true).
+Notation py := (py_eval_gen R whitelist_roots false true true).
 Notation itp := (interp F R).
 
 Definition agree (ns d : names) : Prop :=
@@ -323,20 +327,27 @@ Proof.
 Qed.
 
 Lemma in_lambda_ok op a b : is_missing a = false -> is_missing b = false ->
-  in_lambda R op a b = match op with CNotIn => neg_res (contains R b a) | _ => contains R b a end.
-Proof. intros Ha Hb. unfold in_lambda, guarded. rewrite Ha, Hb. destruct op; reflexivity. Qed.
+  in_lambda F R op a b = match op with CNotIn => neg_res (contains true R b a) | _ => contains true R b a end.
+Proof. intros Ha Hb. unfold in_lambda, guarded. rewrite Ha, Hb, Hkeep. destruct op; reflexivity. Qed.
 
 Lemma link_ok op a b res : is_missing a = false -> is_missing b = false ->
-  link_py R true op a b = Val res -> link_interp R op a b = Val res.
+  link_py R true true op a b = Val res -> link_interp F R op a b = Val res.
 Proof.
   intros Ha Hb. destruct op; cbn [link_py]; intros H;
-    try (exact H);
     try (destruct (is_typem a) eqn:T; cbn [andb] in H; [discriminate|]).
+  - change (link_interp F R CEq a b) with (compare (tm_keeps_attrs F) R REq a b). rewrite Hkeep. exact H.
+  - change (link_interp F R CNotEq a b) with (compare (tm_keeps_attrs F) R RNe a b). rewrite Hkeep. exact H.
+  - change (link_interp F R CLt a b) with (compare (tm_keeps_attrs F) R RLt a b). rewrite Hkeep. exact H.
+  - change (link_interp F R CLtE a b) with (compare (tm_keeps_attrs F) R RLe a b). rewrite Hkeep. exact H.
+  - change (link_interp F R CGt a b) with (compare (tm_keeps_attrs F) R RGt a b). rewrite Hkeep. exact H.
+  - change (link_interp F R CGtE a b) with (compare (tm_keeps_attrs F) R RGe a b). rewrite Hkeep. exact H.
   - (* in *)
-    assert (E : link_interp R CIn a b = in_lambda R CIn a b) by (destruct a; try reflexivity; discriminate T).
+    assert (E : link_interp F R CIn a b = in_lambda F R CIn a b) by (destruct a; try reflexivity; discriminate T).
     rewrite E, (in_lambda_ok CIn a b Ha Hb). exact H.
-  - assert (E : link_interp R CNotIn a b = in_lambda R CNotIn a b) by (destruct a; try reflexivity; discriminate T).
+  - assert (E : link_interp F R CNotIn a b = in_lambda F R CNotIn a b) by (destruct a; try reflexivity; discriminate T).
     rewrite E, (in_lambda_ok CNotIn a b Ha Hb). exact H.
+  - exact H.
+  - exact H.
 Qed.
 
 Lemma name_ok ns d n v : agree ns d -> py_name whitelist_roots ns n = Val v -> interp_name d n = Val v.
@@ -392,8 +403,8 @@ Lemma chain_agree rest : Forall (fun oc => Pe (snd oc)) rest -> forall ns d a la
   forallb (fun oc => lang false (snd oc)) rest = true -> agree ns d ->
   fresh d (flat_map (fun oc => gvars (snd oc)) rest) -> NoDup (flat_map (fun oc => gvars (snd oc)) rest) ->
   is_missing a = false ->
-  p_chain py (link_py R true) ns rest a last = Val v ->
-  exists d', i_chain R itp rest a last d = (Val v, d') /\ agree ns d' /\
+  p_chain py (link_py R true true) ns rest a last = Val v ->
+  exists d', i_chain F R itp rest a last d = (Val v, d') /\ agree ns d' /\
              grows d d' (flat_map (fun oc => gvars (snd oc)) rest).
 Proof.
   induction 1 as [|[op c] rest He _ IH]; intros ns d a last v HL HA HF HN Ha H; cbn in *.
@@ -403,7 +414,7 @@ Proof.
     destruct (He false ns d rv HL1 HA (fresh_app_l _ _ _ HF) (NoDup_app_l _ _ HN) E) as (v' & d1 & Ei & Hr & HA1 & HG1).
     cbn in Hr. subst v'. rewrite Ei.
     assert (Hrv : is_missing rv = false) by exact (py_not_missing _ _ _ E).
-    destruct (link_py R true op a rv) as [res|x] eqn:EL; [|discriminate].
+    destruct (link_py R true true op a rv) as [res|x] eqn:EL; [|discriminate].
     rewrite (link_ok _ _ _ _ Ha Hrv EL).
     destruct (truthy res).
     + destruct (IH ns d1 rv res v HL2 HA1 (fresh_next _ _ _ _ HF HN HG1) (NoDup_app_r _ _ HN) Hrv H) as (d2 & Ei2 & HA2 & HG2).
@@ -666,11 +677,16 @@ Proof.
     assert (HFi : fresh d (gvars it)).
     { intros y Hy. apply HF. right. apply in_or_app. left; exact Hy. }
     assert (HNi : NoDup (gvars it)) by (inversion HN; subst; eapply NoDup_app_l; eassumption).
+    destruct (py_name whitelist_roots ns (quant_name a)) as [fq|ex] eqn:EQN; [|discriminate H].
+    assert (EQI : interp_name d (quant_name a) = Val fq) by exact (name_ok _ _ _ _ HA EQN).
+    destruct fq as [| | | | | | | | | | |q|]; try discriminate H.
+    destruct (String.eqb q (quant_name a)) eqn:EQq; [|discriminate H].
     destruct (p_gens R py a elt (Comp x it cs :: gs') ns) as [| |ex] eqn:EG; try discriminate H.
     all: destruct (gens_step a elt x it cs gs' Hit Hcs HLit HLcs (gens_tail a elt IHelt HLe HGe gs' Htail HBt)
                      ns d _ HA HFi HNi HNF HNDt EG I) as (d' & Ei & HA' & HG').
     all: exists v, d'; split; [|split; [apply rel_eq|split; [exact HA'|]]].
-    all: try (cbn [interp]; rewrite (targets_unbound d (Comp x it cs :: gs') HFt), Ei; exact (f_equal (fun r => (r, d')) H)).
+    all: try (cbn [interp]; rewrite EQI; cbn [allowed_callable negb]; rewrite EQq; cbn [negb];
+              rewrite (targets_unbound d (Comp x it cs :: gs') HFt), Ei; exact (f_equal (fun r => (r, d')) H)).
     all: apply (grows_incl _ _ _ _ HG'); intros y Hy; apply in_app_or in Hy; destruct Hy as [Hy|[Hy|Hy]];
       [right; apply in_or_app; left; exact Hy|left; exact Hy|right; apply in_or_app; right; exact Hy].
   - (* other node kinds are not in the language *) discriminate HL.
@@ -678,7 +694,7 @@ Qed.
 End Agreement.
 
 (* ================= top-level statements ================= *)
-Definition facts_ok (F : facts) : bool := chained F && ifs_honoured F.
+Definition facts_ok (F : facts) : bool := chained F && ifs_honoured F && tm_keeps_attrs F.
 
 Lemma agree_refl d : agree d d.
 Proof. split; auto. Qed.
@@ -701,26 +717,26 @@ Qed.
 
 Theorem interpreted_correct F R e v :
   facts_ok F = true -> in_language e = true -> fresh_vars e = true ->
-  py_eval_gen R whitelist_roots false true std_data e = Val v ->
+  py_eval_gen R whitelist_roots false true true std_data e = Val v ->
   (exists v', fst (interp F R std_data e) = Val v' /\ truthy v' = truthy v) /\
-  py_eval_gen R whitelist_roots false false std_data e = Val v.
+  py_eval_gen R whitelist_roots false true false std_data e = Val v.
 Proof.
-  intros HFo HL HFv H. apply andb_prop in HFo. destruct HFo as [Hc Hi].
+  intros HFo HL HFv H. apply andb_prop in HFo. destruct HFo as [HFo Hk]. apply andb_prop in HFo. destruct HFo as [Hc Hi].
   destruct (fresh_vars_spec e HFv) as [Hf Hn].
-  destruct (interp_agrees F Hc Hi R e true std_data std_data v HL (agree_refl _) Hf Hn H) as (v' & d' & Ei & Hr & _).
-  split; [|exact (strict_is_python R whitelist_roots false e std_data v H)].
+  destruct (interp_agrees F Hc Hi Hk R e true std_data std_data v HL (agree_refl _) Hf Hn H) as (v' & d' & Ei & Hr & _).
+  split; [|exact (strict_is_python R whitelist_roots false true e std_data v H)].
   exists v'. rewrite Ei. split; [reflexivity|exact Hr].
 Qed.
 
 Theorem interpreted_values F R e v :
   facts_ok F = true -> lang false e = true -> fresh_vars e = true ->
-  py_eval_gen R whitelist_roots false true std_data e = Val v ->
-  fst (interp F R std_data e) = Val v /\ py_eval_gen R whitelist_roots false false std_data e = Val v.
+  py_eval_gen R whitelist_roots false true true std_data e = Val v ->
+  fst (interp F R std_data e) = Val v /\ py_eval_gen R whitelist_roots false true false std_data e = Val v.
 Proof.
-  intros HFo HL HFv H. apply andb_prop in HFo. destruct HFo as [Hc Hi].
+  intros HFo HL HFv H. apply andb_prop in HFo. destruct HFo as [HFo Hk]. apply andb_prop in HFo. destruct HFo as [Hc Hi].
   destruct (fresh_vars_spec e HFv) as [Hf Hn].
-  destruct (interp_agrees F Hc Hi R e false std_data std_data v HL (agree_refl _) Hf Hn H) as (v' & d' & Ei & Hr & _).
-  cbn in Hr. subst v'. split; [rewrite Ei; reflexivity|exact (strict_is_python R whitelist_roots false e std_data v H)].
+  destruct (interp_agrees F Hc Hi Hk R e false std_data std_data v HL (agree_refl _) Hf Hn H) as (v' & d' & Ei & Hr & _).
+  cbn in Hr. subst v'. split; [rewrite Ei; reflexivity|exact (strict_is_python R whitelist_roots false true e std_data v H)].
 Qed.
 
 (* ---- rejected with an error ---- *)
